@@ -118,29 +118,33 @@ def run(tier, deadline):
     envs = {v: dict(os.environ, CAT_LIB=vbuild.build(v)) for v in (("prod",) if tier == "quick" else ("prod", "dist"))}
     NS = 16
     jobs = [("prod", tier, j) for j in [["norm", vf, str(i), str(NS)] for i in range(NS)] + [["fold", ff, str(i), str(NS)] for i in range(NS)] + [["range"]]]
+    # a process that never calls setlocale is in the "C" locale whatever its environment says: folding must not depend on LANG / LC_*
+    for xe in ({"LANG": "tr_TR.UTF-8"}, {"LC_ALL": "lt_LT.UTF-8"}, {"LC_CTYPE": "az_AZ"}):
+        jobs += [("prod", tier, ["fold", ff, str(i), "4"], dict(xe, C17_NOLOCALE="1")) for i in range(4)]
     if tier == "thorough":
         vfq, ffq = gen("quick")
         jobs += [("dist", "quick", j) for j in [["norm", vfq, str(i), str(NS)] for i in range(NS)] + [["fold", ffq, str(i), str(NS)] for i in range(NS)] + [["range"]]]
     viol = {}; internal = []; tot = {"vectors": 0, "calls": 0}; timed_out = []
     def one(vj):
-        v, vt, j = vj
+        v, vt, j = vj[:3]; xenv = vj[3] if len(vj) > 3 else {}
         left = deadline - (time.time() - t0)
-        try: return vj, subprocess.run([BIN] + j, capture_output=True, text=True, errors="replace", env=envs[v], timeout=max(5, left))
+        try: return vj, subprocess.run([BIN] + j, capture_output=True, text=True, errors="replace", env=dict(envs[v], **xenv), timeout=max(5, left))
         except subprocess.TimeoutExpired: timed_out.append(vj); return vj, None
     with ThreadPoolExecutor(16) as ex:
-        for (v, vt, j), r in ex.map(one, jobs):
+        for vj, r in ex.map(one, jobs):
+            v, vt, j = vj[:3]; xenv = vj[3] if len(vj) > 3 else {}
             if r is None: continue
             if r.returncode != 0: internal.append(f"{j}: exit {r.returncode} {r.stderr[-200:]}"); continue
             for ln in r.stdout.splitlines():
                 if not ln.startswith("{"): continue
                 o = json.loads(ln)
-                if o["t"] == "viol": e = viol.setdefault(o["sig"], [0, o["case"], v, vt]); e[0] += o["n"]
+                if o["t"] == "viol": e = viol.setdefault(o["sig"], [0, o["case"], v, vt, xenv]); e[0] += o["n"]
                 elif o["t"] == "stat":
                     for k in tot: tot[k] += o[k]
     if internal:
         for m in internal[:10]: print("INTERNAL-ERROR:", m, file=sys.stderr)
         return 2
-    violations = [common.Violation(sig, "" if v == "prod" else "library build: " + v, f"property=C17\nvariant={v}\nsignature={sig}\ntier={vt}\ncase={case}\n", n) for sig, (n, case, v, vt) in sorted(viol.items())]
+    violations = [common.Violation(sig, "" if v == "prod" else "library build: " + v, f"property=C17\nvariant={v}\nsignature={sig}\ntier={vt}\nenv={json.dumps(xe)}\ncase={case}\n", n) for sig, (n, case, v, vt, xe) in sorted(viol.items())]
     def confirm(v):
         kv = dict(l.split("=", 1) for l in v.replay_text.strip().splitlines()); return replay(kv, quiet=True) == 1
     nvec = sum(1 for _ in open(vf))
@@ -164,7 +168,7 @@ def replay(kv, quiet=False):
             if i == ln: line = l.split(); break
         c = ["norm"] + line
     if c[0] == "fold": c[1] = ff
-    r = subprocess.run([BIN, "replay"] + c, capture_output=True, text=True, errors="replace", env=dict(os.environ, CAT_LIB=vbuild.build(kv.get("variant", "prod"))))
+    r = subprocess.run([BIN, "replay"] + c, capture_output=True, text=True, errors="replace", env=dict(os.environ, CAT_LIB=vbuild.build(kv.get("variant", "prod")), **json.loads(kv.get("env", "{}"))))
     if not quiet: sys.stdout.write(r.stdout); sys.stderr.write(r.stderr)
     if r.returncode not in (0, 1) and "harness-killed" in kv.get("signature", ""):
         if not quiet: print(f"VERDICT violation: the replaying process itself was killed by the call (exit status {r.returncode})")
